@@ -76,11 +76,29 @@ func (w *world) runLife(li int, l *lifetime) {
 	s := w.s
 	w.curLife = li
 	w.crashed = false
-	seq, err := kvstore.NewSequence(w.store, key, l.interval)
-	if err != nil {
-		s.Fail("api", "newsequence-error", "NewSequence: %v", err)
-	}
 	group := 100 + li
+	// the constructor runs as a task of the lifetime: an implementation may already touch the store there (reserve the
+	// first interval eagerly), so it can be hit by the crash or by the failing store call like any other call
+	var seq *kvstore.Sequence
+	var err error
+	constructed := false
+	s.GoGroup(fmt.Sprintf("life%d.new", li), group, func() {
+		seq, err = kvstore.NewSequence(w.store, key, l.interval)
+		constructed = true
+	})
+	s.Quiesce()
+	if !constructed {
+		// crashed inside the constructor: whatever it had reserved is lost, at most one interval
+		w.allowance += l.interval
+		return
+	}
+	if err != nil {
+		if !w.failed {
+			s.Fail("api", "newsequence-error", "NewSequence failed without an injected store failure: %v", err)
+		}
+		s.Probe("constructor-returned-injected-error")
+		return
+	}
 	var got []uint64
 	type iv struct{ inv, ret uint64 }
 	var nexts, releases []*iv // call intervals (ret == 0: never returned)
